@@ -50,7 +50,7 @@ PROPS['C06'] = dict(
           'every action) and an independent wire-level monitor counting unresolved PUBLISH packets.',
     note='Trusted: Coq kernel, model, extraction, harness. No axioms. Environment assumptions are explicit (ghost flag '
          'w_envok): resumed CONNACKs leave room for what is carried over; PUBACK/PUBREC name PUBLISH entries. The property '
-         'was false on the unchanged tree (three histories); repaired by fixes b3f2128 and 37cc1f9.')
+         'was false on the unchanged tree (three histories); repaired by fixes b3f2128 and 37cc1f9. Outside the environment flag the statement is refuted (C06_refuted_unsent_beyond_window): known finding K06r.')
 
 PROPS['C17'] = dict(
     sess=[('sess_c17', 250, 3000)],
@@ -225,16 +225,22 @@ PROPS['C01'] = dict(
     events='wf', state=['ret', 'ctl', 'rel', 'conn', 'live', 'cp'],
     monitors=[M.mon_c01, M.mon_panic],
     title='the outbound byte stream is whole, well-formed MQTT 5 packets',
-    claim='Proved in Coq for all inputs: every encoder (CONNECT, PUBLISH, SUBSCRIBE, UNSUBSCRIBE, DISCONNECT, PUBACK/PUBREC/PUBCOMP, '
-          'PUBREL, PINGREQ) returns exactly one control packet (first byte, canonical Remaining Length, exactly that many bytes) whose '
-          'first byte is one MQTT 5 allows a client to send; any concatenation of such packets is framed back into exactly those '
-          'packets; the engine hands write() the unwritten rest of one entry from its recorded offset and begins a fresh entry only '
-          'when no entry is in progress. Over whole executions (1-byte partial writes, a fault or a drop at every await point, '
-          'inbound traffic, reconnects) the model is compared with the code byte for byte and every transport\'s stream is parsed '
-          'by an independent strict MQTT 5 decoder that also checks ownership of any partial packet left on the wire.',
-    note='Partial: the packet-level and engine-level statements are theorems; the statement over all schedules is carried by the '
-         'correspondence and the wire monitor (three known findings K01a/K01b/K01c show the full statement is false of this code). '
-         'Trusted: Coq kernel, model, Spec.v, extraction, harness, Python decoder. No axioms.')
+    claim='Proved in Coq over whole executions (C01_wire_is_whole_packets): for every program, every script (writes accepted '
+          'down to one byte, a fault or a dropped future at any I/O call of any operation), every broker behaviour and any '
+          'number of reconnects, the bytes the current transport has accepted are a sequence of whole packets followed by at '
+          'most the beginning of one packet, and on a live handle that beginning is exactly the written prefix of the one '
+          'queued entry in progress - unless the ghost flag of the model is set, which happens exactly for a QoS 0 publish or '
+          'a disconnect() stopped in the middle of its packet with the handle still live and for disconnect() called while a '
+          'queued packet is half written (the recorded findings; witnessed by computation). Behind it: every retained packet '
+          'in the arena is one whole packet, at most one entry of the three queues is in progress, the control queue is '
+          'served from its head (invariants closed under every session step); the engine writes from the recorded offset and '
+          'the queues own exactly the prefix written; no inbound packet is processed while an outbound packet is half written. '
+          'Packet level: every encoder returns exactly one packet whose first byte MQTT 5 lets a client send (K01a: a replayed '
+          'SUBSCRIBE is a whole packet with the illegal first byte 0x8a), and the framing rule recovers the packets. Tied to the '
+          'code by byte-for-byte differential runs and an independent strict decoder on every transport.',
+    note='Full for packet boundaries, with the ghost flag naming the refuted cases K01b/K01c; first-byte legality of replayed '
+         'SUBSCRIBE/UNSUBSCRIBE is refuted (K01a); "nothing follows a DISCONNECT" and "CONNECT first" are carried by the monitor. '
+         'Trusted: Coq kernel and VM, model (incl. the ghost fields w_wire / w_poison), Spec.v, extraction, harness, Python decoder. No axioms.')
 
 PROPS['C04'] = dict(
     codec=[('decode_gen', 1500, 20000)],
